@@ -9,6 +9,7 @@ import (
 	"github.com/verily-src/fhirpath-go/fhirpath/evalopts"
 	"github.com/verily-src/fhirpath-go/fhirpath/internal/expr"
 	"github.com/verily-src/fhirpath-go/fhirpath/system"
+	"github.com/verily-src/fhirpath-go/internal/fhir"
 	"github.com/verily-src/fhirpath-go/internal/verifrt"
 )
 
@@ -96,7 +97,16 @@ func VerifHarness_C17_EnvVariables() {
 	}
 	probe := &verifProbe{}
 	e := &Expression{expression: probe, path: "probe"}
-	res, err := e.Evaluate(nil, options...)
+	var input []fhir.Resource
+	if k <= 1 && verifrt.NondetBool("nilInputResource") {
+		input = []fhir.Resource{nil} // an error of its own, which must not hide the error of a failing option
+	}
+	res, err := e.Evaluate(input, options...)
+	if input != nil && !(wantUnsupported || wantExisting) {
+		verifrt.Assert(err != nil && res == nil && probe.ran == 0, "nil-input-resource-is-an-error")
+		verifrt.Reach("nil resource")
+		return
+	}
 	if wantUnsupported || wantExisting {
 		verifrt.Assert(err != nil && res == nil, "option-error-is-returned")
 		verifrt.Assert(probe.ran == 0, "nothing-is-evaluated-when-an-option-fails")
